@@ -28,6 +28,9 @@ var SimMapSeed uint64
 //go:linkname SimIter runtime.SimIter
 var SimIter uint64
 
+//go:linkname SimMath runtime.SimMath
+var SimMath uint64
+
 //go:linkname SimNoPreempt runtime.SimNoPreempt
 var SimNoPreempt uint32
 
